@@ -140,6 +140,12 @@ def run_case(prog, style: str, rseed: int, bindings, specs=None, use_reference=F
             if s3 == "ok" and not any(differs(prog, g, want[oi]) for g, oi in zip(got2, pos)):
                 out["notes"].append("runtime-unsupported: " + got[:100])
                 continue
+            if dims != "concrete" and "Subgraph must have the shape set for all outputs" in got:
+                # onnxruntime's Scan wants a rank for every body output; with inputs declared by name / None ONNX
+                # inference legitimately loses the rank of an inner Loop's outputs (never with concrete declarations,
+                # where this message stays a failure)
+                out["notes"].append("runtime-unsupported: Scan body output without a rank (non-concrete declarations)")
+                continue
             out["fail"] = ("runtime-fails", f"onnxruntime run: {got[:200]}")
             return out
         for g, oi in zip(got, pos):
@@ -254,7 +260,8 @@ def run_history(prog, style: str, rseed: int, bindings, n_builds: int = 3):
 
 
 # ------------------------------------------------ round 6: the other routes / options of a build
-def judge_model(prog, model, out_names, name_of, expected_inputs, check_order, bindings, specs, tag, extra_feeds=None):
+def judge_model(prog, model, out_names, name_of, expected_inputs, check_order, bindings, specs, tag, extra_feeds=None,
+                concrete_dims=True):
     """Model-free verdict on ONE returned model: requested outputs there, exactly the expected inputs
     (optionally in caller order), accepted by onnx.checker, loads and runs under onnxruntime on feeds
     for exactly the inputs it lists, every requested output = dataflow value.  `out_names[j]` names
@@ -295,6 +302,8 @@ def judge_model(prog, model, out_names, name_of, expected_inputs, check_order, b
             s3, got2 = L.run_reference(model, feeds)
             if s3 == "ok" and not any(differs(prog, g, want[out_names.index(nm)]) for g, nm in zip(got2, names)):
                 continue
+            if not concrete_dims and "Subgraph must have the shape set for all outputs" in str(got):
+                continue  # (see run_case: onnxruntime's Scan and ranks lost under non-concrete declarations)
             return ("runtime-rejects-model" if st != "ok" else "runtime-fails", f"{tag}: onnxruntime: {str(got)[:200]}")
         for g, nm in zip(got, names):
             d = differs(prog, g, want[out_names.index(nm)])
@@ -451,7 +460,8 @@ def run_variant(prog, R, variant, bindings, specs):
     rev = {nm: a for a, nm in name_of.items()}
     out["args"] = [rev.get(i.name) for i in model.graph.input]
     out["caller_args"] = [a for _, _, a in entries if a is not None]
-    out["fail"] = judge_model(prog, model, by_pos, name_of, expected, check_order, bindings, specs, tag, extra_feeds)
+    out["fail"] = judge_model(prog, model, by_pos, name_of, expected, check_order, bindings, specs, tag, extra_feeds,
+                              concrete_dims=getattr(R, "dims", "concrete") == "concrete")
     return out
 
 
